@@ -19,7 +19,7 @@ import random
 from . import tm
 from .driver import Accounting, Task
 from .graph import build_paths
-from .instruments import ClsSource, InjectedError, InjectedTypeError, Item, Recorder, SyncIterSource, make_callable
+from .instruments import ClsSource, ClsSourceNoClose, InjectedError, InjectedTypeError, Item, Recorder, SyncIterSource, make_callable
 from .report import Verdict
 from .tlc import MachineryError, read_ndjson, run_tlc
 from .tracecheck import validate
@@ -38,7 +38,7 @@ def _nonekey(x):
 
 
 class GBSys:
-    def __init__(self, data, keyfl, sync=False, fault=None, fault_cls=InjectedError):
+    def __init__(self, data, keyfl, sync=False, fault=None, fault_cls=InjectedError, noclose=False):
         self.rec = Recorder()
         self.rec.fault = fault
         if fault:
@@ -51,7 +51,7 @@ class GBSys:
             self.gb = itertools.groupby(self.src, key)
         else:
             L = tm.load_lib()
-            self.src = ClsSource(self.rec, 1, items)
+            self.src = (ClsSourceNoClose if noclose else ClsSource)(self.rec, 1, items)
             key = None if keyfl == "none" else make_callable("asyncdef" if keyfl == "nonekey" else keyfl, self.rec, "key",
                                                              sem=_nonekey if keyfl == "nonekey" else None)
             self.gb = L.groupby(self.src, key)
@@ -193,12 +193,19 @@ def replay_path(args):
         bad("C17", "foreign-suspension", len(path), {"acct": real.rec.acct.describe()})
     # C04: closing the handle (even if never advanced) closes the source and never fails
     if not out and "C04" in props:
-        err = real.close()
-        if err is not None:
-            bad("C04", "close-raises" + ("-unstarted" if not any(o == "gb" for o, _ in history_of(path)) else ""), len(path),
-                {"expected": None, "observed": repr(err)})
-        elif not real.src.released:
-            bad("C04", "unreleased-source-after-close", len(path), {"expected": "closed|exhausted", "observed": real.src.state})
+        # on a fresh replay of the same history (the drain above has used the first one up): closed where it stands
+        for noclose in (False, True):
+            fresh = GBSys(data, keyfl, noclose=noclose)
+            for op, g, *_ in (e["a"] for e in path):
+                fresh.op(op, g)
+            err = fresh.close()
+            how = ("-unstarted" if not any(o == "gb" for o, _ in history_of(path)) else "") + ("+source-without-aclose" if noclose else "")
+            if err is not None:
+                bad("C04", "close-raises" + how, len(path), {"expected": None, "observed": repr(err)})
+                break
+            if not noclose and not fresh.src.released:
+                bad("C04", "unreleased-source-after-close", len(path), {"expected": "closed|exhausted", "observed": fresh.src.state})
+                break
     return out
 
 
